@@ -127,8 +127,9 @@ namespace Pistache::Tcp
                 if (!isRaw())
                     return BufferHolder(_fd, size_, offset);
 
-                auto detached = _raw.copy(offset);
-                return BufferHolder(detached);
+                // Keep the whole buffer and remember how much of it was written:
+                // the write must be fulfilled with the full byte count
+                return BufferHolder(_raw, static_cast<off_t>(offset));
             }
 
         private:
